@@ -184,9 +184,32 @@ class Lab:
                 everything = list(args) + list(kwargs.values()) + (list(f.self_obj.fields.values()) if isinstance(f.self_obj, Sym) else [])
                 if any(is_token_list(a) for a in everything) and any(is_language(a) for a in everything):
                     return measured_result(f, args, kwargs)
-                if q.endswith("CheckResult.add") and self.deep:
-                    self.calls.append(("add", list(args), dict(kwargs)))
-                    self.check_result = f.self_obj
+                if self.deep and f.fi.cls is not None and f.fi.cls.name == "CheckResult" and f.fi.name not in ("__init__", "report", "__len__", "__iter__"):
+                    # what check hands its result object for one file, through whatever method (add, +=) and in whatever wrapping:
+                    # the measurement objects among the arguments, in order; recorded once (add -> += is one hand-over)
+                    def meas(x, depth=0, out=None):
+                        out = [] if out is None else out
+                        if isinstance(x, Sym) and (x.cls is not None and x.cls.name == "Measurement" or x.name == "measurement"):
+                            out.append(x)
+                        elif isinstance(x, Sym) and depth < 3 and getattr(x, "tuple_order", None):
+                            for k_ in x.tuple_order:
+                                meas(x.fields[k_], depth + 1, out)
+                        elif isinstance(x, Sym) and depth < 3 and x.cls is not None and x.cls.name not in ("Location", "CheckResult"):
+                            for v_ in x.fields.values():
+                                meas(v_, depth + 1, out)
+                        elif isinstance(x, (list, tuple)) and depth < 4:
+                            for y in x:
+                                meas(y, depth + 1, out)
+                        elif hasattr(x, "rest") and depth < 4:
+                            raise Unknown("an iterator handed to the check result")
+                        return out
+                    found = meas(list(args) + list(kwargs.values()))
+                    key_ = tuple(id(m_) for m_ in found)
+                    if q.endswith("CheckResult.add") or q.endswith("CheckResult.__iadd__") or found:
+                        last = next((c for c in reversed(self.calls) if c[0] == "add"), None)
+                        if not (last is not None and last[3:] == (key_,) and self.calls and self.calls[-1] is last):
+                            self.calls.append(("add", [args[0] if args else None, found], {}, key_))
+                        self.check_result = f.self_obj
                 if (q.endswith("CheckResult.report") or q.endswith("CheckResult.add")) and not self.deep:
                     return None
             if isinstance(f, tuple) and f and f[0] == "external":
